@@ -258,7 +258,7 @@ func classifyC01(sc *Scenario, h *History, st *Stats) string {
 func init() {
 	register(&Property{
 		ID: "C01", Level: "exploration",
-		Rule:     "one to three DATA transactions over the raw driver; body = every string over {'.',CR,LF,x} up to length 6 (sweep) or a seeded stream over all 256 octets up to ~9000 octets; transport segmentation (2-splits at CR/LF/dot, byte-wise, random sizes, 4096-boundary), server short reads, backend read-buffer sizes and parks are drawn per run. Non-trivial: the body has '.', CR or LF at a line start, or a segment boundary falls inside a CR LF '.' sequence; distinct by (octet-class string of the body, segmentation plan, read-size plan).",
+		Rule:     "one to three DATA transactions over the raw driver; body = every string over {'.',CR,LF,x} up to length 6 (sweep) or a seeded stream over all 256 octets up to ~9000 octets; transport segmentation (2-splits at CR/LF/dot, byte-wise, random sizes, 4096-boundary), server short reads, backend read-buffer sizes and parks are drawn per run. Non-trivial: the body has '.', CR or LF at a line start, or a segment boundary falls inside a CR LF '.' sequence; distinct by (octet-class string of the body, segmentation plan, read-size plan). Fault stratum: the client pauses for a minute inside the message against a server whose WriteTimeout is 5 s (only ReadTimeout governs input).",
 		Gen:      genC01,
 		Check:    checkC01,
 		Classify: classifyC01,
